@@ -17,6 +17,7 @@ def fam_evaluate(cls, arity, label, bounded):
             slf = H.make_self(I, cls, arity)
             H.set_memo_coherent(I, slf, pt)
             I.ghost["self"], I.ghost["pt"] = slf, pt
+            I.ghost["replay"] = {"kind": "evaluate", "root": slf, "pt": pt, "x": z3.Const("x", sym.Name)}
             return lambda: I.call_funcdef(fd, [slf, pt], {})
 
         def post(I, res, emit):
@@ -54,6 +55,8 @@ def fam_at(cls, arity, label, bounded, number):
             else:
                 arg = H.make_point(I)
             I.ghost["arg"] = arg
+            I.ghost["replay"] = {"kind": "evaluate", "root": slf, "pt": None if number else arg,
+                                 "x": z3.Const("x", sym.Name), "number": arg if number else None}
             return lambda: I.call_funcdef(fd, [slf, arg], {})
 
         def post(I, res, emit):
